@@ -39,6 +39,7 @@ def build(cfg, values=None):
         p = ctx.new_panel(model, m, n)
         size = 3 * m * n
         p.calc_k0(silent=True)      # public sequence: the laminate F used by calc_fint is set here
+        p.nx, p.ny = ny + 2, nx + 1   # the numbers of integration points passed as ARGUMENTS must win over the attributes
         c = state(ctx, size, cfg.get('state', 'generic'))
         S = series_of(p, model)
         ops = E.donnell_ops('cpanel' if model == 'cpanel' else 'plate', r=p.r)
@@ -47,10 +48,18 @@ def build(cfg, values=None):
         Ffun = lambda ix, iy: Fl
         Fn = None
         if cfg.get('table'):
+            # a laminate that differs from point to point AND from the panel's own (tapered / steered laminate)
             Fn = np.zeros((nx, ny, 6, 6), dtype=object)
+            tabs = {}
             for ix in range(nx):
                 for iy in range(ny):
-                    Fn[ix, iy] = F
+                    for i in range(6):
+                        for j in range(i, 6):
+                            Fn[ix, iy, i, j] = Fn[ix, iy, j, i] = ctx.V('T%d_%d_%d%d' % (ix, iy, i, j))
+                    for (i, j) in ((0, 1), (0, 2), (1, 2)):      # a laminate: the B block is itself symmetric
+                        Fn[ix, iy, j, 3 + i] = Fn[ix, iy, 3 + i, j] = Fn[ix, iy, i, 3 + j]
+                    tabs[(ix, iy)] = [[Fn[ix, iy, i, j] for j in range(6)] for i in range(6)]
+            Ffun = lambda ix, iy: tabs[(ix, iy)]
         if variant == 'fint':
             f = p.calc_fint(c, nx=nx, ny=ny, Fnxny=Fn, silent=True)
             G = PW.fint_state(ctx.atoms, S, ops, Ffun, c, ctx.gauss[nx], ctx.gauss[ny], NL=1)
@@ -100,6 +109,33 @@ def build(cfg, values=None):
     return obs, assumptions, info
 
 
+def real_exception(cfg):
+    """the same call on the compiled build with floats: does it raise?"""
+    from compmech.panel import Panel
+    model = {'plate': 'plate_clt_donnell_bardell', 'cpanel': 'cpanel_clt_donnell_bardell'}[cfg['model']]
+    p = Panel(a=2., b=1., stack=[0, 45], plyt=1e-3, laminaprop=(142.5e9, 8.7e9, 0.28, 5.1e9, 5.1e9, 5.1e9), m=cfg['m'] + 2, n=cfg['n'] + 2)
+    p.model = model
+    if cfg['model'] == 'cpanel':
+        p.r = 3.
+    nx, ny = cfg['nx'], cfg['ny']
+    try:
+        p.calc_k0(silent=True)
+        c = np.linspace(1e-4, 2e-4, p.get_size())
+        Fn = None
+        if cfg.get('table'):
+            Fn = np.zeros((nx, ny, 6, 6))
+            for ix in range(nx):
+                for iy in range(ny):
+                    Fn[ix, iy] = p.F * (1 + 0.1 * ix + 0.05 * iy)
+        if cfg['variant'] == 'fint':
+            p.calc_fint(c, nx=nx, ny=ny, Fnxny=Fn, silent=True)
+        else:
+            p.calc_kT(c=c, nx=nx, ny=ny, Fnxny=Fn, silent=True)
+    except Exception as e:
+        return '%s: %s' % (type(e).__name__, e)
+    return None
+
+
 def configs(tier, seed):
     out = []
     quick = tier == 'quick'
@@ -110,6 +146,8 @@ def configs(tier, seed):
         out.append({'model': model, 'm': 2, 'n': 1, 'nx': 2, 'ny': 2, 'variant': 'fint', 'group': 'fint-gradient-2x2:%s' % model})
         out.append({'model': model, 'm': 1, 'n': 2, 'nx': 2, 'ny': 2, 'variant': 'kT', 'group': 'kT-jacobian-2x2:%s' % model, 'timeout_ms': 120000})
         out.append({'model': model, 'm': 2, 'n': 1, 'nx': 2, 'ny': 1, 'variant': 'kT', 'table': True, 'group': 'kT-per-point-table:%s' % model, 'timeout_ms': 120000})
+        out.append({'model': model, 'm': 1, 'n': 2, 'nx': 1, 'ny': 2, 'variant': 'kT', 'group': 'kT-jacobian-1x2:%s' % model, 'timeout_ms': 120000})
+        out.append({'model': model, 'm': 2, 'n': 1, 'nx': 2, 'ny': 1, 'variant': 'fint', 'group': 'fint-gradient-2x1:%s' % model})
         out.append({'model': model, 'm': 1, 'n': 2, 'nx': 1, 'ny': 2, 'variant': 'fint', 'table': True, 'group': 'fint-per-point-table:%s' % model})
         out.append({'model': model, 'm': 2, 'n': 2, 'nx': 2, 'ny': 2, 'variant': 'kT0', 'group': 'undeformed:%s' % model})
         out.append({'model': model, 'm': 4, 'n': 1, 'nx': 1, 'ny': 1, 'variant': 'fint', 'group': 'fint-gradient-order-4-5:%s' % model})
